@@ -53,7 +53,7 @@ Step(e) ==
     \/ a.op = "Check" /\ Check(a.s, a.o, a.ro)
     \/ a.op = "Status" /\ Status(a.s, ToSet(a.ids), a.shallow, a.idx, a.ro)
     \/ a.op = "CompareStatus" /\ CompareStatus(a.a, a.b, ToSet(a.ids), a.shallow)
-    \/ a.op = "Gc" /\ Gc(a.s, ToSet(a.used), ToSet(a.foreign), a.ord, a.shallow, a.dry, a.ro)
+    \/ a.op = "Gc" /\ Gc(a.s, ToSet(a.used), ToSet(a.foreign), a.ord, a.shallow, a.dry, a.ro, a.cs, a.cro)
     \/ a.op = "TransferBegin" /\ TransferBegin(a.src, a.dst, ToSet(a.req), a.shallow, ToSet(a.F), a.verify, a.idx)
     \/ a.op = "Pick" /\ Pick(a.d)
     \/ a.op = "Put" /\ (PutBound(a.x) \/ PutDir(a.x) \/ PutLoose(a.x)) /\ act'.res = a.res
@@ -116,7 +116,7 @@ ObsAct(e) ==
     LET a == e.act IN
     CASE a.op = "Status" -> [op |-> "Status", s |-> a.s, ids |-> ToSet(a.ids), shallow |-> a.shallow, idx |-> a.idx, ro |-> a.ro]
       [] a.op = "CompareStatus" -> [op |-> "CompareStatus", a |-> a.a, b |-> a.b, ids |-> ToSet(a.ids), shallow |-> a.shallow]
-      [] a.op = "Gc" -> [op |-> "Gc", s |-> a.s, used |-> ToSet(a.used), foreign |-> ToSet(a.foreign), ord |-> a.ord,
+      [] a.op = "Gc" -> [op |-> "Gc", s |-> a.s, used |-> ToSet(a.used), foreign |-> ToSet(a.foreign), ord |-> a.ord, cs |-> a.cs, cro |-> a.cro,
                          shallow |-> a.shallow, dry |-> a.dry, ro |-> a.ro]
       [] a.op = "TransferBegin" -> [op |-> "TransferBegin", src |-> a.src, dst |-> a.dst, req |-> ToSet(a.req), shallow |-> a.shallow,
                                     F |-> ToSet(a.F), verify |-> a.verify, idx |-> a.idx]
